@@ -16,6 +16,12 @@ abbrev R : Rules := specRules
 
 theorem rules_eq : rules = R := by decide +kernel
 
+/-- the two public accessors read the cursor fields the rules speak of: `FullyScannedBytes` the current offset,
+    `PreviousFullyScannedBytes` the previous one -/
+theorem accessors_pinned :
+    fullyScannedBytesBody = ["return atomic.LoadInt64(&s.decoder.cOffset)"] ∧
+    previousFullyScannedBytesBody = ["return atomic.LoadInt64(&s.decoder.pOffset)"] := by decide
+
 variable {α : Type}
 
 /-- every block is accounted with its full length: 4-byte size prefix, BlobHeader, Blob -/
